@@ -1,6 +1,7 @@
 import PugModel.Driver.Decode
 import PugModel.Tpl.Compile
 import PugModel.JS.Spec
+import PugModel.Pug.Spec
 /-! `render` cases: structured pug document + JSON data → the model's output class and bytes. -/
 namespace Pug.Driver
 open Lean Pug Pug.Tpl
@@ -97,11 +98,25 @@ def jsSpec (doc : List Node) (data : Json) : Json :=
   | some s => okOut s
   | none => clsOut "spec-domain"
 
+/-- specification answer as segments: [{"s": text, "opt": bool}] -/
+def pugSpec (doc : List Node) (data : Json) : Json :=
+  let ρ : JS.Env := match jsOfJson data with
+    | .obj ps => ps
+    | _ => []
+  match Spec.renderDoc doc ρ Gen.whileCap with
+  | .ok segs =>
+    Json.mkObj [("class", "ok"), ("segs", Json.arr (segs.toArray.map fun sg => match sg with
+      | .lit s => Json.mkObj [("s", s), ("opt", false)]
+      | .optWs s => Json.mkObj [("s", s), ("opt", true)]))]
+  | .whileCap => clsOut "exec-error" "while cap"
+  | .undef w => clsOut "spec-domain" w
+
 def runRender (c : Json) : Json × Json :=
   match (jarr c "doc").mapM decNode with
   | .error e => (clsOut "model-domain" ("decode: " ++ e), .null)
   | .ok doc =>
-    let spec := if jstr c "oracle" == "js-expr" then jsSpec doc (jget c "data") else .null
+    let spec := if jstr c "oracle" == "js-expr" then jsSpec doc (jget c "data")
+      else if jstr c "oracle" == "pug" then pugSpec doc (jget c "data") else .null
     (renderModel doc (jget c "data") (jstrs c "funcs"), spec)
 
 end Pug.Driver
